@@ -1386,3 +1386,37 @@ Theorem recovered_name_safe sugg :
   recovered_file_name sugg <> [] /\ forall c, In c (recovered_file_name sugg) ->
     (32 <= c /\ c <> 47 /\ c <> 92 /\ c <> 60 /\ c <> 62 /\ c <> 58 /\ c <> 34 /\ c <> 124 /\ c <> 63 /\ c <> 42 /\ (c < 127 \/ 159 < c))%N.
 Proof. apply sanitize_safe_chars. Qed.
+
+(* ------------------------------------------------------------------------------------------ *)
+(* republish: create_stream into a blob directory that already holds files.  Whenever it returns a stream, the stream
+   is exactly the one a clean directory gives (so every data blob is named by H of the ciphertext stored for it and
+   decrypting in descriptor order gives the file back), and none of its data blobs was adopted from a file that was
+   already there under that name; in an empty directory it is create_stream. *)
+Theorem republish_sound (H : bytes -> bytes) (E : bytes -> bytes -> bytes -> bytes) (D : bytes -> bytes -> bytes -> option bytes)
+        maxb dir old_sort name key ivf f s :
+  (forall k iv p, D k iv (E k iv p) = Some p) -> (2 <= maxb)%nat ->
+  create_stream_in H E maxb dir old_sort name key ivf f = Some s ->
+  s_desc s = s_desc (build_stream H E maxb name key ivf f) /\
+  s_cts s = s_cts (build_stream H E maxb name key ivf f) /\
+  decrypt_stream D (s_desc s) (s_cts s) = Some f /\
+  (forall c, In c (s_cts s) -> blocked dir (hex (H c)) = false).
+Proof.
+  intros HDE Hm. unfold create_stream_in.
+  destruct (existsb _ _) eqn:Hex; [discriminate|]. intro Hc.
+  destruct (layout_created H E maxb old_sort name key ivf f s Hc) as [Hd [Hcts _]].
+  split; [exact Hd|]. split; [exact Hcts|]. split.
+  - rewrite Hd, Hcts. apply roundtrip; assumption.
+  - intros c Hin. rewrite Hcts in Hin.
+    destruct (blocked dir (hex (H c))) eqn:Hb; [|reflexivity].
+    assert (existsb (fun c => blocked dir (hex (H c))) (s_cts (build_stream H E maxb name key ivf f)) = true)
+      by (apply existsb_exists; exists c; split; assumption).
+    congruence.
+Qed.
+
+Theorem republish_clean_dir (H : bytes -> bytes) (E : bytes -> bytes -> bytes -> bytes) maxb old_sort name key ivf f :
+  create_stream_in H E maxb [] old_sort name key ivf f = create_stream_layout H E maxb old_sort name key ivf f.
+Proof.
+  unfold create_stream_in.
+  replace (existsb _ _) with false; [reflexivity|].
+  symmetry. induction (s_cts _) as [|c r IH]; [reflexivity|]. cbn. exact IH.
+Qed.
